@@ -285,21 +285,50 @@ func (u *Unit) MergeStates(sts []*State, label string) *State {
 		so := gkeys[k]
 		out.Ghost[k] = mergeTerm("ghost$"+k, func(s *State) Term { return u.ghost(s, k, so) })
 	}
-	// vars: only those present in all states survive
-	for k, v0 := range sts[0].Vars {
+	// vars: those present in all states are merged; a plain (SMT-valued) variable that exists on some of the paths
+	// only keeps its value on those paths and is arbitrary on the others (so that a clause evaluated after the join
+	// can still speak about it under the condition of its path)
+	vkeys := map[string]Val{}
+	for _, s := range sts {
+		for k, v := range s.Vars {
+			if _, ok := vkeys[k]; !ok {
+				vkeys[k] = v
+			}
+		}
+	}
+	for _, k := range sortedValKeys(vkeys) {
+		v0 := vkeys[k]
 		all := true
-		for _, s := range sts[1:] {
+		for _, s := range sts {
 			if _, ok := s.Vars[k]; !ok {
 				all = false
 				break
 			}
 		}
-		if !all {
-			continue
-		}
 		vals := make([]Val, len(sts))
-		for i, s := range sts {
-			vals[i] = s.Vars[k]
+		if !all {
+			if v0.P != nil || v0.F != nil || v0.T == nil {
+				continue
+			}
+			ok := true
+			for i, s := range sts {
+				if v, has := s.Vars[k]; has {
+					if v.P != nil || v.F != nil || len(v.S) != len(v0.S) {
+						ok = false
+						break
+					}
+					vals[i] = v
+				} else {
+					vals[i] = u.FreshVal(k+".absent", v0.T)
+				}
+			}
+			if !ok {
+				continue
+			}
+		} else {
+			for i, s := range sts {
+				vals[i] = s.Vars[k]
+			}
 		}
 		out.Vars[k] = u.mergeVals(k, v0.T, vals, pcs)
 	}
@@ -449,4 +478,13 @@ func (u *Unit) mergeVals(name string, t types.Type, vals []Val, pcs []Term) Val 
 		out.S[si] = u.Define(name, tm)
 	}
 	return out
+}
+
+func sortedValKeys(m map[string]Val) []string {
+	ks := make([]string, 0, len(m))
+	for k := range m {
+		ks = append(ks, k)
+	}
+	sort.Strings(ks)
+	return ks
 }
